@@ -59,3 +59,7 @@ package utils
 //@ func (r *RTTStats) UpdateRTT
 //@   trusted RTT smoothing arithmetic (RFC 9002 5.3); no claimed clause depends on the values, only on which state it may write
 //@   modifies r.hasMeasurement, heap(atomic.Int64.v)
+
+//@ func (r *RTTStats) SetInitialRTT
+//@   trusted frame only: stores into the receiver's atomic RTT fields
+//@   modifies r._all
